@@ -5,6 +5,7 @@ package lib
 
 import (
 	"reflect"
+	"strconv"
 	"time"
 )
 
@@ -81,6 +82,34 @@ type Multi struct {
 	A string `alipay:"to=1~3" wechat:"to=5~9" valid:"required"`
 	B int    `alipay:"ge=10" wechat:"le=5"`
 	C string `wechat:"phone" valid:"to=2~4"`
+}
+
+// Named (defined) scalar types, as generated code is full of them (protobuf
+// enums are named int32 types with a String method).  Some of them print
+// differently under fmt than their underlying value.
+type (
+	MyStr  string
+	MyInt  int
+	MyI8   int8
+	MyI32  int32 // enum-like: has a String method
+	MyI64  int64
+	MyU8   uint8
+	MyU32  uint32
+	MyU64  uint64
+	MyF32  float32
+	MyF64  float64
+	MyBool bool
+)
+
+func (e MyI32) String() string { return "ENUM_" + strconv.Itoa(int(e)) }
+func (s MyStr) String() string { return "<" + string(s) + ">" }
+func (u MyU8) String() string  { return "u8" }
+
+// NamedScalars maps a scalar kind name to its named variant.
+var NamedScalars = map[string]reflect.Type{
+	"string": reflect.TypeOf(MyStr("")), "int": reflect.TypeOf(MyInt(0)), "int8": reflect.TypeOf(MyI8(0)), "int32": reflect.TypeOf(MyI32(0)),
+	"int64": reflect.TypeOf(MyI64(0)), "uint8": reflect.TypeOf(MyU8(0)), "uint32": reflect.TypeOf(MyU32(0)), "uint64": reflect.TypeOf(MyU64(0)),
+	"float32": reflect.TypeOf(MyF32(0)), "float64": reflect.TypeOf(MyF64(0)), "bool": reflect.TypeOf(MyBool(false)),
 }
 
 // Types is the registry name -> type.
